@@ -100,7 +100,19 @@ def mk_layout(spec):
     )
 
 
-def norm_spec(spec, fit=False):
+def effective_level(desc, text):
+    """which level the effective layout of a text comes from: 'node' / 'caption' / 'lang'"""
+    for d in [desc] + ([desc["second"]] if desc.get("second") else []):
+        for c in d["captions"]:
+            for t, spec, kind in c["parts"]:
+                if t == text:
+                    if spec is not None and kind in ("span", "bare"):
+                        return "node"
+                    return "caption" if c.get("layout") is not None else "lang"
+    return "lang"
+
+
+def norm_spec(spec, fit=False, must_fit=False):
     """reference normal form(s) of an effective layout after a DFXP round trip: a set of acceptable tuples"""
     if spec is None:
         spec = (None, None, None, None)
@@ -117,6 +129,10 @@ def norm_spec(spec, fit=False):
             fe = (rx, ry)
         else:
             fe = (rx if float(o[0]) + float(e[0]) > 90 else f(e[0]), ry if float(o[1]) + float(e[1]) > 95 else f(e[1]))
+        if must_fit:
+            # caption- and node-level layouts are fitted whenever fit_to_screen is on (language-level ones are only
+            # relativized - pinned by tests/test_dfxp_conversion.py::test_empty_cue - so there either form is accepted)
+            return {(no, fe, np_, na)}
         out.add((no, fe, np_, na))
     return out
 
@@ -233,7 +249,7 @@ def eval_dfxp(desc, fit, relativize=True):
         if text not in got:
             v.append((f"C12/dfxp/{klass}/text-lost", {"text": text}))
             continue
-        acc = norm_spec(spec, fit)
+        acc = norm_spec(spec, fit, must_fit=effective_level(desc, text) != "lang")
         if got[text] not in acc:
             comp = [n for n, a, b in zip(("origin", "extent", "padding", "alignment"), got[text], sorted(acc, key=repr)[0]) if a != b]
             if bare:
@@ -474,11 +490,11 @@ def run_shard(d):
     acc = Acc()
     k = d["k"]
 
-    def run(fn, desc, fit, keyx=()):
-        v, out = fn(desc, fit)
-        acc.case((k, desc, fit) + keyx, True, out, {"layouts": {kk: vv for kk, vv in desc.items() if kk != "klass"}, "fit_to_screen": fit, "writer": "DFXP" if fn is eval_dfxp else "WebVTT"})
+    def run(fn, desc, fit, keyx=(), relativize=True):
+        v, out = fn(desc, fit) if relativize else fn(desc, fit, False)
+        acc.case((k, desc, fit, relativize) + keyx, True, out, {"layouts": {kk: vv for kk, vv in desc.items() if kk != "klass"}, "fit_to_screen": fit, "writer": "DFXP" if fn is eval_dfxp else "WebVTT"})
         for sig, det in v:
-            acc.violation(sig, {"fn": fn.__name__, "desc": desc, "fit": fit}, det)
+            acc.violation(sig + ("" if relativize else "/relativize-off"), {"fn": fn.__name__, "desc": desc, "fit": fit, "relativize": relativize}, det)
 
     if k == "dfxp-docs":
         for var in dfxp_doc_variants():
@@ -510,6 +526,11 @@ def run_shard(d):
                 run(eval_dfxp, {"lang": None, "captions": [{"layout": a, "parts": [("t0", b, "span"), ("t1", None, "plain")]}], "klass": "caption+span"}, fit)
         for a, b, c in itertools.permutations(REDUCED[:6], 3):
             run(eval_dfxp, {"lang": a, "captions": [{"layout": b, "parts": [("t0", c, "span"), ("t1", None, "plain")]}], "klass": "three-levels"}, False)
+        # percentage layouts written with relativization off (fit on / off): nothing to relativize, fitting still applies
+        for a in REDUCED:
+            for fit in (False, True):
+                for level in ("lang", "caption", "span"):
+                    run(eval_dfxp, dict(single_level_desc(a, level), klass="relativize-off-" + level), fit, (), False)
         # a styled span without a layout of its own takes the nearest enclosing layout (caption, then language)
         for a, b in itertools.product([None] + REDUCED, REDUCED):
             if a == b:
@@ -609,5 +630,8 @@ def replay(case):
 
     d2 = fix(desc)
     fn = eval_dfxp if case["fn"] == "eval_dfxp" else eval_vtt
+    if case.get("relativize") is False:
+        v, _ = fn(d2, case["fit"], False)
+        return [{"sig": s + "/relativize-off", "detail": d} for s, d in v]
     v, _ = fn(d2, case["fit"])
     return [{"sig": s, "detail": d} for s, d in v]
